@@ -25,19 +25,21 @@ CONTRACTS = [
         FA + "split_tsql",
         props=["C05"],
         assume_only=True,
+        pure_function=True,
         returns="list[str]",
         raises={"*": {"when": None}},
-        modifies=["self.tsql_split_cache"],
-        notes="ASSUMED here (proved separately under C05): returns the statement texts; only its own analyzer's cache is written",
+        modifies=[],
+        notes="as seen by _eval: the texts of the statement segments, a function of (analyzer, text); verified in contracts/helpers.py (its cache write is internal to the fresh analyzer)",
     ),
     Contract(
         "sqllineage.utils.helpers.split",
         props=["C05"],
         assume_only=True,
+        pure_function=True,
         returns="list[str]",
         raises={"*": {"when": None}},
         modifies=[],
-        notes="ASSUMED here: sqlparse-based splitting is a function of the text (C05 treats it)",
+        notes="as seen by _eval: a function of the text; verified in contracts/helpers.py against the sqlparse model",
     ),
     Contract(
         FA + "__init__",
@@ -67,6 +69,8 @@ CONTRACTS = [
             "session_forgotten": "prov._session_metadata == {}",
             "marked_evaluated": "self._evaluated is True",
             "one_holder_per_statement_in_order": "len(self._stmt_holders) == len(self._stmt)",
+            "tsql_batches_are_split_by_the_parser_iff_enabled_for_tsql": "implies(bool(SQLLineageConfig.TSQL_NO_SEMICOLON) and self._dialect == 'tsql', self._stmt == typed(analyzer, 'SqlFluffLineageAnalyzer').split_tsql(self._sql.strip()))",
+            "otherwise_split_on_statement_boundaries": "implies(not (bool(SQLLineageConfig.TSQL_NO_SEMICOLON) and self._dialect == 'tsql'), self._stmt == split(self._sql.strip()))",
         },
         raises={
             "*": {
